@@ -254,7 +254,13 @@ class SessionModel:
                 ns[e["var"]] = evalv(e["val"])
                 continue
             if t == "mutate":
-                exec(e["how"].format(var=e["var"]), {}, ns)
+                try:
+                    exec(e["how"].format(var=e["var"]), {}, ns)
+                except Exception:
+                    # the statement raises in the real test as well: the rest of that test does not run
+                    aborted.add(tk)
+                    self.test_raised[tk] = True
+                    self.test_aborted[tk] = True
                 continue
             if t in ("setg", "stmt"):
                 continue
